@@ -139,6 +139,10 @@ class WorkingHours:
             if dt is None:
                 return False
 
+        return self.isWorkingDate(dt)
+
+    def isWorkingDate(self, dt: datetime) -> bool:
+        """Check whether a (local) date/time lies within the working hours."""
         weekday = dt.weekday()
 
         # Check if this day has working hours defined
